@@ -47,6 +47,13 @@ pub fn sym_digest(sym: &str) -> Vec<u8> {
 fn target_of(d: &str) -> in_toto::models::TargetDescription {
     use in_toto::crypto::{HashAlgorithm, HashValue};
     let mut t = HashMap::new();
+    // "mix:<a>:<b>": sha256 of <a> together with sha512 of <b>
+    if let Some(x) = d.strip_prefix("mix:") {
+        let (a, b) = x.split_once(':').expect("mix:a:b");
+        t.insert(HashAlgorithm::Sha256, HashValue::new(digest::digest(&digest::SHA256, a.as_bytes()).as_ref().to_vec()));
+        t.insert(HashAlgorithm::Sha512, HashValue::new(digest::digest(&digest::SHA512, b.as_bytes()).as_ref().to_vec()));
+        return t;
+    }
     let (algs, sym): (&[&str], &str) = if let Some(x) = d.strip_prefix("s512:") {
         (&["512"], x)
     } else if let Some(x) = d.strip_prefix("both:") {
@@ -519,7 +526,8 @@ impl Ctx {
         let text = scn.to_string();
         let mut table: Vec<(in_toto::models::TargetDescription, String)> = vec![];
         for sym in ["h1", "h2", "h3", "h9", "he"] {
-            if text.contains(sym) {
+            // ("he", the empty file, is what the specification gives the sentinel of an inspection)
+            if sym == "he" || text.contains(sym) {
                 for pre in ["", "s512:", "both:"] {
                     let d = format!("{pre}{sym}");
                     table.push((target_of(&d), d));
